@@ -49,7 +49,14 @@ def digest(obj) -> str:
     ).hexdigest()[:16]
 
 
-_ADDR = re.compile(r"0x[0-9a-fA-F]{6,}")
+_ADDR = re.compile(r"0[xX][0-9a-fA-F]{6,}")
+_INTERNAL = re.compile(r"<(?:async_)?generator object \S*(?:root|block_\w+)\.<locals>\.\S+ at 0x", re.I)
+
+
+def internal_leak(s: str) -> bool:
+    """The text contains the repr of a generator created by compiled template code (e.g. a macro that returned
+    its un-run generator): never legitimate output, and not repeatable (it embeds a memory address)."""
+    return bool(_INTERNAL.search(s))
 
 
 def scrub(s: str) -> str:
